@@ -69,12 +69,15 @@ fn render(rec: &LRec, base: NaiveDate) -> Vec<Transaction> {
 fn main() {
     let v: Vec<String> = std::env::args().collect();
     let (mut input, mut out, mut nbases) = (String::new(), String::new(), 1usize);
+    let (mut cli, mut cli_every): (Option<String>, usize) = (None, 25);
     let mut i = 1;
     while i < v.len() {
         match v[i].as_str() {
             "--in" => { input = v[i + 1].clone(); i += 1; }
             "--out" => { out = v[i + 1].clone(); i += 1; }
             "--bases" => { nbases = v[i + 1].parse().unwrap_or(1); i += 1; }
+            "--cli" => { cli = Some(v[i + 1].clone()); i += 1; }
+            "--cli-every" => { cli_every = v[i + 1].parse().unwrap_or(25).max(1); i += 1; }
             _ => {}
         }
         i += 1;
@@ -120,6 +123,40 @@ fn main() {
             let res: Result<Result<TaxReport, String>, String> = guarded(move || calculate(&t2, None, None, cfg).map_err(|e| e.to_string()));
             let events = cgt_core::verif::finish();
             cnt.inc("executions");
+            // the same lines, in the same order, dealt over TWO input files of the cgt-tool binary (first half, second half):
+            // `report --format json a.cgt b.cgt` must print the library's report for the concatenation
+            if *base == bases[0] && case_no % cli_every == 0 {
+                if let Some(cli) = &cli {
+                    let dir = std::env::temp_dir().join(format!("cgtv_lines_{}_{}", std::process::id(), case_no));
+                    let _ = std::fs::create_dir_all(&dir);
+                    let h = txs.len() / 2;
+                    let _ = std::fs::write(dir.join("a.cgt"), to_dsl(&txs[..h]));
+                    let _ = std::fs::write(dir.join("b.cgt"), to_dsl(&txs[h..]));
+                    let o = std::process::Command::new(cli).args(["report", "--format", "json", "a.cgt", "b.cgt"]).current_dir(&dir).env("HOME", &dir).output();
+                    let _ = std::fs::remove_dir_all(&dir);
+                    cnt.inc("cli_runs");
+                    match (o, &res) {
+                        (Err(e), _) => { eprintln!("cannot run {cli}: {e}"); std::process::exit(2); }
+                        (Ok(o), Ok(Ok(rep))) => {
+                            let strip = |mut v: serde_json::Value| { if let Some(ys) = v["tax_years"].as_array_mut() { for y in ys { if let Some(m) = y.as_object_mut() { m.remove("exempt_amount"); } } } v };
+                            let want = strip(cgtv::canon_numbers(&serde_json::to_value(rep).unwrap_or(json!(null))));
+                            let got = serde_json::from_slice::<serde_json::Value>(&o.stdout).map(|v| strip(cgtv::canon_numbers(&v))).unwrap_or(json!("<not json>"));
+                            if !o.status.success() || got != want {
+                                for pr in ["C06", "C01"] {
+                                    push(pr, "cli_report_differs", format!("cgt-tool report --format json a.cgt b.cgt (exit {:?}) does not print the library's report for the same lines in the same order: {} vs {}", o.status.code(),
+                                        got.to_string().chars().take(300).collect::<String>(), want.to_string().chars().take(300).collect::<String>()));
+                                }
+                            }
+                        }
+                        (Ok(o), Ok(Err(_))) => {
+                            if o.status.success() || !o.stdout.iter().all(|b| b.is_ascii_whitespace()) {
+                                push("C05", "cli_report_on_refused_ledger", format!("the library refuses the ledger, yet cgt-tool exits {:?} with {} bytes on standard output", o.status.code(), o.stdout.len()));
+                            }
+                        }
+                        _ => {}
+                    }
+                }
+            }
             match (&res, rec.status.as_str()) {
                 (Err(p), _) => push("C15", "panic", format!("calculate panicked: {p}")),
                 (Ok(Err(msg)), "ok") => push("C05", "covered_refused", format!("the line-level model accepts this ledger, the code refuses it: {msg}")),
